@@ -256,8 +256,7 @@ def fdefineOk (isize : Option Nat) (order : Int) : Bool :=
     | some sz => !decide ((sz : Int) * order > (MAX_FIELD_SIZE : Nat))   -- DFE_BADFIELDS
 
 /-- the field loop of `VSsetfields` on an empty writable vdata: sizes are `order * isize` of the named fields.
-    Returns success, the number of fields in the write list afterwards (`wlist.n`) and `wlist.ivsize`.
-    As in the C, a failure in the middle of the list leaves the fields processed so far in the write list. -/
+    Returns success, the number of fields put into the write list so far and the record size so far. -/
 def setfieldsLoop : List Nat → Nat → Nat → Bool × Nat × Nat
   | [], iv, k => (true, k, iv)
   | sz :: rest, iv, k =>
@@ -265,11 +264,17 @@ def setfieldsLoop : List Nat → Nat → Nat → Bool × Nat × Nat
     else if iv + sz > MAX_FIELD_SIZE then (false, k, iv)
     else setfieldsLoop rest (iv + sz) (k + 1)
 
-/-- `VSsetfields` with `sizes.length` comma separated names (HEAD: `scanattrs` refuses more than `VSFIELDMAX` tokens
-    before touching its static tables) -/
-def setfields (sizes : List Nat) : Bool × Nat × Nat :=
+/-- `VSsetfields` with `sizes.length` comma separated names (`scanattrs` refuses more than `VSFIELDMAX` tokens
+    before touching its static tables).  Returns success, `wlist.n` and `wlist.ivsize` afterwards.  A list that is
+    refused in the middle leaves NO field behind: the `done:` block releases the half-built write list and resets
+    `wlist.n`/`wlist.ivsize` (`fixed = false`: the code before that repair kept the fields processed so far). -/
+def setfieldsV (fixed : Bool) (sizes : List Nat) : Bool × Nat × Nat :=
   if sizes.length = 0 || sizes.length > VSFIELDMAX then (false, 0, 0)
-  else setfieldsLoop sizes 0 0
+  else
+    let r := setfieldsLoop sizes 0 0
+    if r.1 || !fixed then r else (false, 0, 0)
+
+def setfields (sizes : List Nat) : Bool × Nat × Nat := setfieldsV true sizes
 
 /-- `scanattrs` token tables: `symptr[VSFIELDMAX + 1]`, `sym[VSFIELDMAX][FIELDNAMELENMAX + 1]`.  Number of `symptr`
     slots written (tokens + the NULL terminator) and of `sym` rows written for `n ≥ 1` tokens, `none` = FAIL.
@@ -295,15 +300,21 @@ def copyTrunc (lim : Nat) (name : Name) : Name := name.take lim ++ [0]
 def nameStored : NameApi → Name → Option Name
   | .vsname, n | .vsclass, n => some (n.take VSNAMELENMAX)          -- VSsetname / VSsetclass: fixed char[65], truncate
   | .field, n => some (n.take FIELDNAMELENMAX)                       -- scanattrs: truncate to FIELDNAMELENMAX
-  | .vgname, n | .vgclass, n | .grname, n => some n                  -- Vsetname / Vsetclass / GRcreate: malloc(strlen + 1)
+  | .vgname, n | .vgclass, n | .grname, n =>                         -- Vsetname / Vsetclass / GRcreate: malloc(strlen + 1),
+    if n.length > H4.Gen.Limits.UINT16_MAX then none else some n     --   refused beyond the 16-bit length field of the record
   | .sdname, n | .dimname, n =>                                      -- NC_new_string: count > H4_MAX_NC_NAME refused
     if n.length > H4_MAX_NC_NAME then none else some n
   | .attrname, n =>                                                  -- SDsetattr: the attribute becomes a vdata NAMED by VSsetname;
     if n.length > VSNAMELENMAX then none else some n                 --   a name that vdata name cannot hold is refused
 
+/-- `vpackvg` / `vunpackvg`: the name goes to the file with `(uint16)strlen(name)` as its length -/
+def vgRecordName (n : Name) : Name := n.take (n.length % 65536)
+
 /-- what is read back after the file was closed and reopened -/
 def nameReopened : NameApi → Name → Option Name
-  | .vgname, n | .vgclass, n | .grname, n => some (n.take (n.length % 65536))   -- vpackvg: `(uint16)strlen`
+  | .vgname, n => (nameStored .vgname n).map vgRecordName
+  | .vgclass, n => (nameStored .vgclass n).map vgRecordName
+  | .grname, n => (nameStored .grname n).map vgRecordName
   | a, n => nameStored a n
 
 /-! ## Part 5: SD rank and the open-file table -/
